@@ -7,7 +7,7 @@ machinery therefore never sees a stale result.  VERIF_NO_CACHE=1 disables the st
 """
 import os
 import time
-from . import layer_t, layer_i, layer_r, layer_g, layer_s, layer_k, layer_n, corpus
+from . import layer_t, layer_i, layer_r, layer_g, layer_s, layer_k, layer_n, layer_m, corpus
 from .common import tree_hash, cache_get, cache_put, Scratch, REPRS, log
 
 
@@ -198,4 +198,20 @@ def get_n(pid, tier):
     r["cache_hit"] = False
     if not _transient(r):
         cache_put("layer_n", key, r, keep=8)
+    return r
+
+
+def get_m(tier, seed):
+    key = tree_hash(("M", tier, seed))
+    r = cache_get("layer_m", key)
+    if r is not None:
+        r["cache_hit"] = True
+        return r
+    t0 = time.time()
+    with Scratch("vf-m-") as sc:
+        r = layer_m.run_layer_m(sc, tier, seed, jobs=8)
+    r["wall_s"] = time.time() - t0
+    r["cache_hit"] = False
+    if not _transient(r):
+        cache_put("layer_m", key, r)
     return r
